@@ -21,7 +21,7 @@
      join sep <arg>… | getitem a int <i> | getitem a slice <x|N> <y|N> <0|1 step given>
      splice a <arg> <start> <end|N> | append a <arg> | cwna a <atts|-> | nwar a <key,key|-> | cwns a <text> | copy a
      slices a <s:e,s:e|-|E:kind>               (split / splitlines: bounds are data; E:kind = separator rejected)
-     eq a <arg> | hash a
+     eq a <arg> | hash a | obsint <str|len|s|width> a <k>   (observation interrupted at the k-th per-run call)
      just <L|R> a <width> <N|t<text>> <a<atts|->|E:kind>   (fill result text and shared_atts are data)
      wslice a int <i> | wslice a slice <x|N> <y|N> | wsplit a <columns> <fmt>~<0|1>…   (yielded lines are data)
      deleg a <E:kind|N|L<text>~<text>…> <a<atts|->|E:kind>
@@ -111,6 +111,9 @@ def decOp (pool : List Nat) (args : List String) : Option Op :=
   | ["s", a] => do pure (.obsS (← p a))
   | ["width", a] => do pure (.obsWidth (← p a))
   | ["colorstr", a, k] => do pure (.obsColor (← p a) (← k.toNat?))
+  | ["obsint", w, a, k] => do
+    let which ← ["str", "len", "s", "width"].idxOf? w
+    pure (.obsInterrupted which (← p a) (← k.toNat?))
   | ["eq", a, other] => do pure (.eq (← p a) (← decArg pool other))
   | ["hash", a] => do pure (.hash (← p a))
   | ["setitem", a] => do pure (.setitem (← p a))
